@@ -8,6 +8,7 @@ From RecordUpdate Require Import RecordSet.
 From SV Require Import Base.Base IR.State IR.NS IR.Ops Xform.Clone Xform.Xform Proofs.AssocX Proofs.Frame Proofs.Inv1a Proofs.Inv2a
   Proofs.InvP Proofs.InvW Proofs.Fresh Proofs.Refused Proofs.RefusedFull Proofs.NsInv Proofs.CloneInv Proofs.RefK Proofs.CloneRef Proofs.FieldT
   Proofs.Repoint Proofs.CloneFaith Proofs.CloneInvP Proofs.CloneFull Proofs.CloneNetInv Proofs.CloneDefStruct Proofs.CloneData Proofs.XHistory Proofs.UniqFull.
+From SV Require Import Proofs.UniqFresh.
 Import ListNotations RecordSetNotations.
 
 (* ---- the unfolding ---- *)
@@ -497,16 +498,12 @@ Section RoundU.
     pose proof (clone_definition_id s d) as Hid.
     revert E. destruct (clone_definition s d) as [[s1 e1] dd]. cbn [fst snd] in *. subst e1 dd. cbn [liftR]. intro E.
     set (d' := next s) in *. set (x1 := mkX s1 (uniq_ctr x) (flat_ctr x)) in E.
-    set (named := match get_str (st x1) d str_NAME with Some nm => _ | None => _ end) in E.
+    set (named := rename_block x1 lib d d') in E.
     assert (Hn : XPost (fun s' => usame d' s1 s' /\ UF s') named).
-    { unfold named. destruct (get_str (st x1) d str_NAME) as [nm|]; [|intros _; split; [apply us_refl|exact U1]].
-      cbv zeta. destruct (fresh_ctr _ _ _ _ _ _) as [k|]; [|intro H; discriminate].
-      apply (xpost_liftR (fun s' => usame d' s1 s' /\ UF s')).
-      - intros _. cbn [st]. split; [apply us_dict_set_name; reflexivity|apply (uf_struct _ _ (se_dict_set _ _ _ _) U1)].
-      - intros x3 [Q3 U3]. destruct (get_str (st x3) d' str_IDENT) as [idv|]; [|intros _; split; assumption].
-        apply (xpost_liftR (fun s' => usame d' s1 s' /\ UF s')).
-        + intros _. split; [eapply us_trans; [exact Q3|apply us_dict_set_name; reflexivity]|apply (uf_struct _ _ (se_dict_set _ _ _ _) U3)].
-        + intros x4 Q4 _. exact Q4. }
+    { unfold XPost. destruct named as [x5 e] eqn:Eb. cbn [fst snd]. intros ->.
+      apply (rename_block_post (fun s' => usame d' s1 s' /\ UF s') x1 lib d d' x5); [split; [apply us_refl|exact U1]| |exact Eb].
+      intros s0 k0 v0 Hk0 [Q0 U0] _.
+      split; [eapply us_trans; [exact Q0|apply us_dict_set_name; destruct Hk0 as [->| ->]; reflexivity]|apply (uf_struct _ _ (se_dict_set _ _ _ _) U0)]. }
     destruct named as [x5 [e|]]; [discriminate|]. destruct (Hn eq_refl) as [Q5 U5]. cbn [fst st] in Q5, U5. clear Hn.
     set (pos := Some (Datatypes.S (index_of d (kids s RDefs lib)))) in E.
     pose proof (us_op_add_rdefs d' (st x5) lib d' pos) as Q35.
